@@ -48,7 +48,7 @@ def main():
     bad = 0
     with ThreadPoolExecutor(max_workers=a.j) as ex:
         for sid, res in ex.map(one, dirs):
-            ok = "348 passed" in res and "failed" not in res
+            ok = "348 passed" in res and not re.search(r"(?<!x)\b\d+ failed|\d+ error", res)
             bad += not ok
             print(f"{'ok ' if ok else 'BAD'} {sid:48} {res}")
     print(f"{len(dirs)} seeded changes, {bad} not surviving the baseline suite")
